@@ -14,6 +14,11 @@
 using namespace vh;
 using cm::Value;
 
+// ASan records the call stack of every malloc/free in a depot that never shrinks; under rapidcheck's deep, ever-varying call chains
+// that depot grew by ~20 KB per case (gigabytes in the thorough tier) and tripled the run time.  A short context is enough to
+// diagnose errors inside the (shallow) library.  Options given in the ASAN_OPTIONS environment variable still take precedence.
+extern "C" const char *__asan_default_options() { return "malloc_context_size=6"; }
+
 static_assert(LDBL_MANT_DIG >= 64, "midpoints of adjacent doubles are built exactly in long double");
 
 // ------------------------------------------------------------------------------------------------------------------
@@ -753,7 +758,9 @@ int main(int argc, char **argv) {
     Engine e;
     e.name = "C10_numbers";
     e.run = []() {
-        bool ok = rc::check("C10(a) cif_value_parse_numb accepts exactly CIF numeric syntax; refusal leaves the value unchanged", []() {
+        const char *only = getenv("VERIF_C10_ONLY");   // development aid: run a single sub-property
+        auto want = [&](char k) { return !only || !*only || strchr(only, k); };
+        bool ok = !want('a') || rc::check("C10(a) cif_value_parse_numb accepts exactly CIF numeric syntax; refusal leaves the value unchanged", []() {
             std::string kind; ustr s = gen_a(kind);
             for (auto &ch : s) if (ch == 0) ch = u'x';
             if (expovf_text(s)) { count_excluded("F-EXPOVF"); size_t p = s.find_first_of(u"eE"); s.erase(p); if (s.empty()) s = u"1"; }
@@ -767,7 +774,7 @@ int main(int argc, char **argv) {
             if (!m.empty()) { record_fail(c, m); RC_FAIL(m); }
         });
         if (!ok) return false;
-        ok = rc::check("C10(b) get_number / get_su are the correctly rounded doubles of the decimal text", []() {
+        ok = !want('b') || rc::check("C10(b) get_number / get_su are the correctly rounded doubles of the decimal text", []() {
             BCase b = gen_b();
             ustr s = to_u16(b.text);
             for (int tries = 0; tries < 20 && odd_tie_text(s); tries++) { count_excluded("F-TIE-ODD"); b = gen_b(); s = to_u16(b.text); }   // known finding, witness replayed separately
@@ -784,7 +791,7 @@ int main(int argc, char **argv) {
             if (!m.empty()) { record_fail(c, m); RC_FAIL(m); }
         });
         if (!ok) return false;
-        ok = rc::check("C10(c) init_numb / autoinit_numb render value and su correctly rounded at the scale; the text parses back", []() {
+        ok = !want('c') || rc::check("C10(c) init_numb / autoinit_numb render value and su correctly rounded at the scale; the text parses back", []() {
             CCase k = gen_c();
             CaseFile c; c.set("sub", "c"); c.set("fn", k.autoi ? "auto" : "init"); c.set("val", bits_ser(k.val)); c.set("su", bits_ser(k.su));
             c.seti("scale", k.scale); c.seti("mlz", k.mlz); c.seti("rule", (long) k.rule); c.set("fam", k.fam); c.seti("prior", W({{5, 0}, {1, R(1, 6)}}));
